@@ -466,6 +466,15 @@ func (db *MultiBucketBackend) PutObject(
 		return result, invalidKey(objectName)
 	}
 
+	// Read the whole body before anything stored is touched: its length is
+	// checked here, and the readers the caller wraps around it report a bad
+	// digest or broken chunk framing only once they have been drained. A refused
+	// upload must leave the previous object as it was.
+	body, err := gofakes3.ReadAll(input, size)
+	if err != nil {
+		return result, err
+	}
+
 	err = gofakes3.MergeMetadata(db, bucketName, objectName, meta)
 	if err != nil {
 		return result, err
@@ -515,7 +524,7 @@ func (db *MultiBucketBackend) PutObject(
 
 	hasher := md5.New()
 	w := io.MultiWriter(f, hasher)
-	if _, err := io.Copy(w, input); err != nil {
+	if _, err := w.Write(body); err != nil {
 		return result, err
 	}
 
